@@ -109,6 +109,12 @@ pub struct World {
     pub suspend_violation: Option<(String, String)>,
     pub empty_buf_reads: usize,
     pub force_propagate: bool,
+    /// Kind of the injected read error (chosen per script).
+    pub read_err_kind: io::ErrorKind,
+    pub read_error_fired: bool,
+    pub reads_after_read_error: usize,
+    /// C10 extension: handlers retry a write that failed with the injected transient error.
+    pub retry_failed_writes: bool,
     /// Set when shutdown is requested while the connection is idle: reads after this point are counted.
     pub idle_at_shutdown: bool,
 }
@@ -128,7 +134,7 @@ impl World {
             wfault: WFault::None, write_calls: 0, write_failed_at: None, writes_after_failure: 0, write_dropped: false, lock_held_pending: false,
             end_requests: 0, replies_seen: 0, handler_log: Vec::new(), shutdown_requested_at_step: None, step: 0,
             current_poll_started_after_shutdown: false,
-            owed_triggers: Vec::new(), suspend_violation: None, empty_buf_reads: 0, force_propagate: false, idle_at_shutdown: false,
+            owed_triggers: Vec::new(), suspend_violation: None, empty_buf_reads: 0, force_propagate: false, idle_at_shutdown: false, read_err_kind: io::ErrorKind::ConnectionReset, read_error_fired: false, reads_after_read_error: 0, retry_failed_writes: false,
         }
     }
 
@@ -187,11 +193,16 @@ impl AsyncRead for SimRead {
         let call = w.read_calls;
         w.read_calls += 1;
         w.reads_after_mark += 1;
+        if w.read_error_fired {
+            w.reads_after_read_error += 1;
+        }
         if let RFault::ErrAtCall(n) = w.rfault {
             if n == call {
                 w.cx.fault("read_error");
                 w.cx.ev("read_err", call as u64, 0);
-                return Poll::Ready(Err(io::Error::new(io::ErrorKind::ConnectionReset, "injected read error")));
+                w.read_error_fired = true;
+                let kind = w.read_err_kind;
+                return Poll::Ready(Err(io::Error::new(kind, "injected read error")));
             }
         }
         if buf.is_empty() {
